@@ -66,7 +66,7 @@ META = {
     "level_note": "Per history the enumeration of crash points is complete, the set of histories is sampled. SQLite only. Faults are injected at the DBAPI boundary (cursor.execute) and through the public event API; failures inside the driver's commit are C23/C26 business. Replays that diverge from the dry run are not judged.",
     "design_ref": "DESIGN.md section 4, C32",
     "rule": "case = (history, crash point, fault kind); non-trivial = at least one statement of the flush had executed before the fault or the fault came from a hook after the first statement; distinct by (ops, point, kind)",
-    "shards": {"quick": 8, "thorough": 16},
+    "shards": {"quick": 16, "thorough": 16},
     "soft_s": {"quick": 50, "thorough": 840},
     "exhaustive": {"quick": False, "thorough": False},
     "require": ["histories", "faults_injected", "faults_at_statements", "faults_at_hooks", "faults_inside_savepoint",
@@ -399,6 +399,9 @@ def run_point(ctx, R, zoo, tpl, kd, prefix, tail, D_ok, point, kind, commit_firs
             if d != sp_frame["dump"]:
                 vio("partial-work-committed-after-savepoint-recovery", diff(sp_frame["dump"], d))
                 return
+            # S8: what unmodified objects loaded while the savepoint was open (the tail may flush
+            # inside it) is stale by design after its rollback: start from the expired state
+            rig.session.expire_all()
             try:
                 touch_all(R, rig)
             except sa.exc.SQLAlchemyError as e:
